@@ -2727,11 +2727,13 @@ template< size_t L> inline
    if (pos1 >= mLength)
       return *this;
    size_t  copy_len = count2;
-   if (pos1 + count1 >= mLength)
+   // surplus characters of the new text are ignored
+   if (copy_len > L - pos1)
+      copy_len = L - pos1;
+   // count1 can be max(64bit), so we cannot calc pos1 + count1
+   if (count1 >= mLength - pos1)
    {
       // replace from pos until the end of the string
-      if (pos1 + copy_len > L)
-         copy_len = L - pos1;
       std::memcpy( &mString[ pos1], &str[ pos2], copy_len);
       mLength = pos1 + copy_len;
       mString[ mLength] = '\0';
@@ -2745,11 +2747,13 @@ template< size_t L> inline
       // str.length() == 5
       // make space:  goodbyex....farewell
       // copy:        goodbye and farewell
-      std::memmove( &mString[ pos1 + copy_len - count1 + 1],
-         &mString[ pos1 + count1],
-         mLength - pos1 - count1);
+      // the part of the tail that does not fit anymore is cut off
+      const size_t  move_len = std::min( mLength - pos1 - count1,
+         L - pos1 - copy_len);
+      std::memmove( &mString[ pos1 + copy_len], &mString[ pos1 + count1],
+         move_len);
       std::memcpy( &mString[ pos1], &str[ pos2], copy_len);
-      mLength = mLength - count1 + copy_len;
+      mLength = pos1 + copy_len + move_len;
       mString[ mLength] = '\0';
    } else // count1 > copy_len
    {
